@@ -5,9 +5,10 @@
 import PowHsm.Basic.Json
 import PowHsm.Spec.C14
 import PowHsm.Ledger.Protocol
+import PowHsm.Spec.C03
 namespace PowHsm
 namespace Ops
-open Ledger Comm Dongle
+open Ledger Comm Dongle Spec
 
 def optBytesToJson : Option Bytes → Json
   | none => .null
@@ -82,18 +83,11 @@ def parsedOfJson (input : Json) : Option Parsed :=
   | some (.str "ok") => (input.get? "request").map Parsed.ok
   | _ => none
 
-structure LineObs where
-  reply : Json
-  shutdown : Bool
-  events : List Ev
-  commIssue : Bool
-  exc : String
-
-def LineObs.toJson (o : LineObs) : Json :=
+def _root_.PowHsm.Spec.LineObs.toJson (o : LineObs) : Json :=
   .obj [("reply", o.reply), ("shutdown", .bool o.shutdown), ("events", evsToJson o.events),
         ("comm_issue", .bool o.commIssue), ("exc", .str o.exc)]
 
-def LineObs.ofJson? (j : Json) : Option LineObs := do
+def _root_.PowHsm.Spec.LineObs.ofJson? (j : Json) : Option LineObs := do
   pure { reply := ← j.get? "reply", shutdown := ← (← j.get? "shutdown").asBool?,
          events := ← evsOfJson? (← j.get? "events"),
          commIssue := ← (← j.get? "comm_issue").asBool?,
@@ -119,6 +113,8 @@ def run (op : String) (input implOut : Json) : Option (Json × Bool) :=
   match op with
   | "unsign" => unsign input implOut
   | "line" => line (fun _ _ => true) input implOut
+  | "line.C03" => line (fun i o => match worldOfJson i with
+      | some w => Spec.c03 w.script w.commIssue o | none => false) input implOut
   | _ => none
 
 end Ops
